@@ -195,6 +195,7 @@ fn run_in_thread(family: Family, mode: Mode) -> RunOut {
     w.p_hold.set(plan.p_hold);
     w.w_outcome.set(plan.w_outcome);
     w.w_payload.set(plan.w_payload);
+    *w.immediate_mask.borrow_mut() = plan.immediate_mask.clone();
 
     let driver = SimDriver::new(w.clone(), plan.clone());
     let rt = Runtime::builder().event_interval(1).build(Box::new(NoopNotify));
